@@ -389,7 +389,7 @@ def main(run: Run):
     ctx = world.build()
     labels = [o.label for o in alphabet(world)(ctx)]
     jobs = [(run.seed, depth, dev, frozenset([l])) for l in run.rotate(labels)]
-    jobs += [(run.seed, depth - 1, dev, frozenset(labels[i::4]), True) for i in range(4)]  # the same alphabet on three-minute bars resampled from minute rows
+    jobs += [(run.seed, min(depth - 1, 4), min(dev, 1), frozenset([l]), True) for l in labels]  # the same alphabet on three-minute bars resampled from minute rows
     tot = {"states": 0, "transitions": 0, "complete": 0}
     for r in pmap(run_partition, jobs):
         run.merge(r)
